@@ -58,6 +58,7 @@ def gen_hist(rng, quick, sparse):
             # the weights may be handed over as a VIEW of a column of the caller's kernel array
             # (resolved when the arrays are built: needs a column with positive entries)
             st["wview"] = (not sparse) and st["w"] is not None and rng.random() < 0.3
+            st["inplace"] = (not sparse) and st["op"] == "fit_transform" and rng.random() < 0.5   # copy=False
             steps.append(st)
             fitted, last_wkind = (n, m), wkind
             nfit += 1
@@ -204,6 +205,9 @@ def run_impl(case):
                 elif st["op"] == "fit_transform":
                     if sparse:
                         X = obj.fit_transform(a["Knm"], a["Kmm"], sample_weight=w)
+                    elif st.get("inplace"):
+                        X = obj.fit_transform(a["K"], sample_weight=w, copy=False)
+                        r["left"] = a["K"].tolist()          # what the call left in the caller's array
                     else:
                         X = obj.fit_transform(a["K"], sample_weight=w)
                     X = np.array(X, dtype=float)
@@ -211,6 +215,7 @@ def run_impl(case):
                     r["X"] = X.tolist()
                 elif st.get("inplace"):
                     r["X"] = np.array(obj.transform(a["Kt"], copy=False), dtype=float).tolist()
+                    r["left"] = a["Kt"].tolist()
                 else:
                     r["X"] = np.array(obj.transform(a["Kt"]), dtype=float).tolist()
             except Exception as e:  # noqa
@@ -277,8 +282,14 @@ def oracle(case, rec):
             last = (st, r)
             if "raised" in r:
                 return "step %d: %s raised %s on valid input" % (i, st["op"], r["raised"])
+        if st["op"] in ("fit", "fit_transform") and st["bad"] is not None and "raised" not in r:
+            return "step %d: %s accepted invalid input (%s)" % (i, st["op"], st["bad"])
         if "X" not in r or last is None:
             continue
+        want = np.shape(r["Kt"]) if st["op"] == "transform" else np.shape(last[1]["Knm"] if sparse else last[1]["K"])
+        if np.shape(np.asarray(r["X"], dtype=float)) != tuple(want):
+            return "step %d (%s): the result has shape %s, expected %s" % (
+                i, st["op"], np.shape(np.asarray(r["X"], dtype=float)), tuple(want))
         fst, fr = last
         try:
             with np.errstate(all="ignore"):
@@ -336,7 +347,7 @@ def oracle(case, rec):
                 tk = np.asarray(fresh.transform(K.copy()), dtype=float).tolist()
             pr["TK"] = pr["FT"] = tk
             if not P.gate(pc, pr):
-                msg = P.oracle(pc, pr)
+                msg = P.oracle_body(pc, pr)
                 if msg:
                     return "step %d: %s" % (i, msg)
     return None
@@ -358,10 +369,14 @@ def _imp(st, r, sparse):
     if st["op"] == "set":
         return "IDone"
     if st["op"] == "transform":
+        if "left" in r:
+            return "(IOutL %s %s)" % (C.fmat(r["X"]), C.fmat(r["left"]))
         return "(IOut %s)" % C.fmat(r["X"])
     a = "%s %s %s" % (C.fmat([r["rows"]]), "[]" if sparse else C.fmat([[r["all"]]]), C.fmat([[r["scale"]]]))
     if st["op"] == "fit":
         return "(IFit %s)" % a
+    if "left" in r:
+        return "(IFitOutL %s %s %s)" % (a, C.fmat(r["X"]), C.fmat(r["left"]))
     return "(IFitOut %s %s)" % (a, C.fmat(r["X"]))
 
 
@@ -399,7 +414,8 @@ def case_coq(case, rec, tol, tolp, eps, diag=False):
 
 def describe(case):
     return " -> ".join(
-        st["op"] + ("(w=%s%s)" % (st.get("wkind"), ", rejected:" + st["bad"] if st.get("bad") else "")
+        st["op"] + ("(w=%s%s%s)" % (st.get("wkind"), ", copy=False" if st.get("inplace") else "",
+                                    ", rejected:" + st["bad"] if st.get("bad") else "")
                     if st["op"] in ("fit", "fit_transform") else
                     "(%s)" % ",".join("%s=%s" % (k, st[k]) for k in ("c", "t", "rc") if k in st) if st["op"] == "set" else "")
         for st in case["steps"])
